@@ -68,7 +68,18 @@ LawAt(r, b) == LET pp == PPb(r, b)
 \* the law holds at every evaluation (hence at the returned one), in one consistent reading of "p times fraction"
 \* and the returned fluxes are those of the last evaluation
 Cl_Law == (E.ev = "End") => /\ \E b \in {"mass", "molar"} : \A j \in Evals(l) : LawAt(Trace[j], b)
-                            /\ (E.outcome = "return" => IsEval(Pre) /\ E.J = Pre.J)
+                            /\ ((E.outcome = "return" /\ IsEval(Pre)) => E.J = Pre.J)
+\* The same clause without looking at the iteration: the returned fluxes obey the law at a permeate composition within
+\* `precision` of their own composition yJ = Y(J).  With pp evaluated (oracle) at yJ itself the law can be off by at most
+\* P_i |dpp_i/dy| precision (first order); asserted where the map is contractive at yJ.
+OwnTol(i, P) == FAdd(FMul(FMul(P, FAbs(E.dppY[i])), FMul(O.prec, Lit("3.0"))),
+                     FMul(Lit("1e-9"), FMul(P, FAdd(O.pf[i], FAbs(E.ppY[i])))))
+OwnAt(pp) == /\ FLe(FAbs(FSub(E.J[1], FMul(O.P1, FSub(O.pf[1], pp[1])))), OwnTol(1, O.P1))
+             /\ FLe(FAbs(FSub(E.J[2], FMul(O.P2, FSub(O.pf[2], pp[2])))), OwnTol(2, O.P2))
+Cl_LawAtOwnComposition == (E.ev = "End" /\ E.outcome = "return" /\ E.hasOwn /\ FLt(E.Lown, Lit("0.9"))
+                           /\ (E.hasL => FLt(E.L, Lit("0.9")))          \* contractive also where the iteration stopped
+                           /\ Fin2(E.J) /\ Fin2(E.ppY) /\ Fin2(E.dppY) /\ Fin2(O.pf)) =>
+                          (OwnAt(E.ppY) \/ OwnAt(E.ppYmolar))
 Cl_SelfConsistent == (E.ev = "End" /\ E.outcome = "return" /\ E.hasL /\ FLt(E.L, Lit("0.9"))) =>
                        FLe(FAbs(FSub(S!Y(E.J), Pre.y)), FAdd(O.prec, Near(O.prec)))
 Cl_VacuumExact == (E.ev = "End" /\ E.outcome = "return" /\ (O.mode \in {"vac", "press0"})) =>
